@@ -34,11 +34,11 @@ def main():
   n1 = sum(k[1] == 1 for k, _, _ in rows)
   out = ['### 12.5 Seeded changes (independent sub-agents, property text only) and which checks catch them', '',
          f'{n} changes in {max(k[1] for k, _, _ in rows)} rounds ({n1} in the first) were produced by fresh sub-agents that saw only the property text and their own scratch',
-         'worktree (later rounds were additionally told which mechanisms round 1 had used, so as to get different ones; round 3 covered twelve properties, round 4 the other six). Each was confirmed by',
+         'worktree (later rounds were additionally told which mechanisms round 1 had used, so as to get different ones; round 3 covered twelve properties, round 4 the other six, round 5 six again). Each was confirmed by',
          '`tools/confirm_seed.sh` (patch applies; demo fails with / passes without; related pinned tests still pass) and is stored under',
          f'`seeded/<id>/`. Column `before` = would the check have caught it as it was before the change was known ({nno} of {n}',
          'would not). For the round-2 changes of the non-physics properties the checks were hardened from the agents\' DESCRIPTIONS before',
-         'the first run, so `before` is by analysis of the then model space; for the round-2 physics properties (C01-C08, C11, C16, C18) and all of rounds 3 and 4',
+         'the first run, so `before` is by analysis of the then model space; for the round-2 physics properties (C01-C08, C11, C16, C18) and all of rounds 3 to 5',
          '`before` is the result of a first run of the quick tier. Every miss led to a change of the MODEL SPACE (scene options,',
          'boundary states, dtypes, sessions in one process), of an exclusion rule or of the harness protocol - never to a special case',
          'for the patch. After those changes the quick tier catches every change except C16-3 (needs about 128 environments x 1000',
